@@ -31,7 +31,7 @@ def build(case):
         elif k == "avgpool":
             m = torch.nn.AvgPool1d(l["size"])
         elif k == "maxpool":
-            m = torch.nn.MaxPool1d(l["size"])
+            m = torch.nn.MaxPool1d(l["size"], padding=l.get("pad", 0))
         elif k == "act":
             cls = getattr(torch.nn, l["cls"])
             slope = l["slope"][0] / l["slope"][1]
@@ -50,6 +50,24 @@ def build(case):
             else:
                 m = cls()
         mods.append(m)
+    # the same layers in differently NESTED containers (blocks inside blocks): every non-linearity must be found wherever it sits
+    nest = case.get("nest", 0)
+    if nest == 1 and len(mods) >= 2:
+        h = len(mods) // 2
+        return torch.nn.Sequential(torch.nn.Sequential(*mods[:h]), torch.nn.Sequential(*mods[h:])), patched
+    if nest == 2 and len(mods) >= 3:
+        return torch.nn.Sequential(mods[0], torch.nn.Sequential(torch.nn.Sequential(*mods[1:-1]), mods[-1])), patched
+    if nest == 3:
+        class Block(torch.nn.Module):
+            def __init__(self, ms):
+                super().__init__()
+                self.inner = torch.nn.ModuleList(ms)
+
+            def forward(self, x):
+                for m_ in self.inner:
+                    x = m_(x)
+                return x
+        return Block(mods), patched
     return torch.nn.Sequential(*mods), patched
 
 
@@ -77,7 +95,7 @@ def handler(case):
         A = case["A"]
         X = base.encode(case["x"], A, torch.float64).unsqueeze(0)
         if case["refmode"] == "tensor":
-            refs = torch.stack([base.encode(r, A, torch.float64) for r in case["refs"]]).unsqueeze(0)
+            refs = torch.tensor([[[v[0] / v[1] for v in row] for row in rm] for rm in case["refs"]], dtype=torch.float64).unsqueeze(0)
             kw = dict(references=refs)
         else:
             kw = dict(references=dinucleotide_shuffle, n_shuffles=case["nref"], random_state=case["seed"])
@@ -92,10 +110,15 @@ def handler(case):
             except Exception as e:
                 return dict(st="err", msg="%s: %s" % (type(e).__name__, str(e)[:200]))
         out["warn"] = [str(w.message)[:80] for w in wl if issubclass(w.category, RuntimeWarning)]
-        used_dec = [base.decode(used[0, j], allow_n=False) for j in range(used.shape[1])]
-        if any(u == "INVALID" for u in used_dec):
-            return dict(st="err", msg="references returned are not one-hot")
-        out["refs"] = used_dec
+        if case["refmode"] == "tensor":
+            if not bool((used[0] == refs[0]).all()):
+                return dict(st="err", msg="returned references differ from the reference tensor that was passed")
+            out["refs"] = case["refs"]
+        else:
+            used_dec = [base.decode(used[0, j], allow_n=False) for j in range(used.shape[1])]
+            if any(u == "INVALID" for u in used_dec):
+                return dict(st="err", msg="references returned are not one-hot")
+            out["refs"] = [[[[1, 1] if u[p] == ch else [0, 1] for p in range(len(u))] for ch in range(A)] for u in used_dec]
         out["mult"] = mult[0].tolist()             # (nref, A, L)
         out["attr"] = attr[0].tolist()             # (A, L)
         with torch.no_grad():
